@@ -636,7 +636,18 @@ func (e *Enc) specCall(n *ast.CallExpr, env *SpecEnv) Val {
 		}
 		v, ok := env.f.vals[found]
 		if !ok {
-			specFail("callres(%q): the call has not been executed on this path", cname)
+			// the call is not on this path: an arbitrary value of its result type (the clause has to
+			// hold whatever it is, so this can only make a clause harder to prove, never easier)
+			rt := found.Type()
+			if tp, isT := rt.(*types.Tuple); isT {
+				if k >= tp.Len() {
+					specFail("callres(%q, %d): the call has %d results", cname, k, tp.Len())
+				}
+				rt = tp.At(k).Type()
+			}
+			nv := e.freshVal(shapeOf(rt), "nocall_"+sanitize(cname))
+			e.assumeLoaded(env.st, nv)
+			return nv
 		}
 		if v.Sh.K == KTuple || (len(v.Sub) > k && found.Type() != nil && isTuple(found.Type())) {
 			return v.Sub[k]
